@@ -34,7 +34,7 @@ func runC02(t *testing.T, c simrt.Chooser, o Opts) *Out {
 	if o.Index < len(c02BadTargets)*3 {
 		variant = "bad-target"
 	}
-	cmds := append(append([][]string{}, packetCmds...), appCmds[:1]...)
+	cmds := append(append([][]string{}, packetCmds...), appCmds...)
 	knobs := genKnobs{maxProbes: 300, cmds: cmds, allowVPN: true, allowStdin: true, allowExcl: true, chunkedPct: 5, remotePct: 50}
 	if o.Tier == "thorough" {
 		knobs.maxProbes = 1500
@@ -250,7 +250,7 @@ func runC02(t *testing.T, c simrt.Chooser, o Opts) *Out {
 				out.violate("C02.outside-target", sigBase, "argv %v: probe to %v lies outside %v", w.Argv, k, s.Subnet)
 			case excluded(exh, k.IP):
 				out.violate("C02.excluded-probed", sigBase, "argv %v: probe to %v although excluded by %v", w.Argv, k, cleanExclude(s.Exclude))
-			case n > 1:
+			case n > 1 && s.Kind != "docker" && s.Kind != "elastic": // those probes are several connections to one endpoint
 				out.violate("C02.probed-twice", sigBase, "argv %v: %v probed %d times within the first %d probes of one pass", w.Argv, k, n, len(got))
 			case !s.portless() && !inRanges(s.Ports, k.Port):
 				out.violate("C02.outside-target", sigBase+"/port", "argv %v: probe to %v, port not in %v", w.Argv, k, s.Ports)
